@@ -52,7 +52,10 @@ func runC10(e *Engine, g G, o RunOpt) RunInfo {
 	sc.Client.SMResume = true
 	ns := g.Range("nsteps", 2, 8)
 	for i := 0; i < ns; i++ {
-		switch g.Weighted("step", 5, 5, 1, 2) {
+		switch g.Weighted("step", 5, 5, 1, 2, 1) {
+		case 4:
+			st := c10Step{Op: "ack-writefail", HMode: []string{"zero", "partial"}[g.N("hmode2", 2)], HArg: g.N("harg", 1000), N: g.Range("failj", 1, 6)}
+			sc.Steps = append(sc.Steps, st)
 		case 3:
 			st := c10Step{Op: "race", Tasks: g.Range("tasks", 1, 3), N: g.Range("n", 2, 5), API: "mixed"}
 			st.HArg = g.N("harg", 1000)
@@ -320,6 +323,45 @@ func runC10(e *Engine, g G, o RunOpt) RunInfo {
 					continue
 				}
 				checkQueue(fmt.Sprintf("after a server <r/> in step #%d", si))
+			case "ack-writefail":
+				// the connection breaks in the middle of the retransmission: whatever
+				// was not acknowledged must still be held, once
+				if raced {
+					continue
+				}
+				w := wire()
+				h := 0
+				if st.HMode == "partial" && len(w) > 0 {
+					h = st.HArg % (len(w) + 1)
+				}
+				eff := h
+				if eff > len(w) {
+					eff = len(w)
+				}
+				oldMax := maxH
+				if eff > maxH {
+					maxH = eff
+				}
+				want := heldModel()
+				if len(want) == 0 {
+					maxH = oldMax // nothing would be retransmitted: skip this step
+					continue
+				}
+				ccli := conn.Pipe.Cli
+				ccli.FailWriteAt = ccli.Writes + 1 + (st.N-1)%len(want)
+				conn.Send(fmt.Sprintf("<a xmlns='%s' h='%d'/>", nsSM, h))
+				e.Sleep(2 * time.Second)
+				raws, ids := queue()
+				for i := 1; i < len(ids); i++ {
+					if ids[i] <= ids[i-1] {
+						e.Violate("C10", "sequence-numbers-not-increasing", "after a failed retransmission: %v", ids)
+					}
+				}
+				if strings.Join(raws, "\x00") != strings.Join(want, "\x00") {
+					e.Violate("C10", classifyHeldDiff(raws, want)+":write-failure", "step #%d: <a h=%d/> with the socket failing at retransmission write #%d: held %s, expected %s", si, h, 1+(st.N-1)%len(want), shortStz(raws), shortStz(want))
+				}
+				e.Probe("c10.retransmission_write_failed")
+				return
 			case "ack":
 				if raced {
 					continue
